@@ -302,7 +302,7 @@ def decode_model_script(v, inv):
 
 # ------------------------------------------------------------------ run + compare
 
-def check_snapshot(p, rows, spec):
+def check_snapshot(p, rows, spec, supplied=None):
     """the rows of one snapshot against the least fixed point of the joined input: list of (relation, what)"""
     lats = g.lat_of(p)
     bad = []
@@ -319,7 +319,14 @@ def check_snapshot(p, rows, spec):
             bad.append((name, "relation %s: a fresh run on the join of all inputs has %s which the result lacks; the result has %s which a fresh run has not" % (name, miss[:5], extra[:5])))
             continue
         if name not in lats and len(got) != len(set(got)):
-            bad.append((name, "relation %s holds duplicate rows (%d rows, %d distinct)" % (name, len(got), len(set(got)))))
+            # a run() never appends a tuple that is present; copies of a tuple can only come from the caller (rows assigned / pushed):
+            # c copies supplied by the caller give c rows, or c + 1 when a run derived the tuple before the caller supplied it
+            import collections
+            cnt = collections.Counter(got)
+            sup = (supplied or {}).get(name, {})
+            over = [(t, n, sup.get(t, 0)) for t, n in cnt.items() if n > max(1, sup.get(t, 0) + (1 if sup.get(t, 0) else 0))]
+            if over:
+                bad.append((name, "relation %s holds duplicate rows the caller did not supply (%d rows, %d distinct): (tuple, rows, copies supplied) %s" % (name, len(got), len(set(got)), over[:4])))
     return bad
 
 
@@ -395,13 +402,21 @@ def compare(r):
             failed = False
             prev_run = None
             j = -1
+            supplied = {}
             for si, st in enumerate(h):
                 if st[0] != "run":
                     prev_run = None
+                    if st[0] in ("set", "push") and len(st) > 1 and isinstance(st[1], dict):
+                        for rel_, ts in st[1].items():
+                            d_ = supplied.setdefault(rel_, {})
+                            if st[0] == "set":
+                                d_.clear()
+                            for t_ in ts:
+                                d_[tuple(t_)] = d_.get(tuple(t_), 0) + 1
                     continue
                 j += 1
                 rows = snaps[j]
-                for rel, what in check_snapshot(p, rows, r["spec"][k][j]):
+                for rel, what in check_snapshot(p, rows, r["spec"][k][j], supplied):
                     known = KNOWN if rel in dup else None
                     mism.append(dict(case=dict(cs, run=j + 1), impl={n: v for n, v in rows.items()}, model=None, spec=r["spec"][k][j], kind="impl_violates_spec", known=known,
                                      what="%s, after run #%d of the history: %s" % (mode, j + 1, what)))
